@@ -17,6 +17,10 @@ THOROUGH_ONLY = {}               # unit name -> True
 INL = "include/aws/common/array_list.inl"
 SRC = "source/array_list.c"
 LL = "include/aws/common/linked_list.inl"
+# native replay drivers (DESIGN 3.5): the unit name is the op; lemma_*, inv_forms_*, error_slot and sort_native have none
+# (pure arithmetic over harness locals / a model check / already a native run)
+AL_REPLAY = "array_list_replay.c"
+LL_REPLAY = "linked_list_replay.c"
 
 # name -> (enforce, replace, extra unit fields, sizes, mutants on the size given as key)
 AL = [
@@ -179,6 +183,7 @@ def build(only_sizes=None):
             if sz in LARGE:
                 u["defines"].append("-DVERIF_AL_P_ONLY")
             u.update(extra)
+            u["replay"] = {"driver": AL_REPLAY, "op": uname}   # replay/array_list_replay.c parses <function>_s<size>
             if thorough_only:
                 u["only_tier"] = "thorough"
             if uname == "swap_s24":   # 48 havocked bytes at symbolic offsets: minutes, cadical is the steadier solver here
@@ -196,6 +201,7 @@ def build(only_sizes=None):
     for name, covers, k, nl in LLU:
         u = {"name": "ll_" + name, "src": "linked_list.c", "harness": "h_" + name, "mode": "complete", "replace": [], "covers": covers,
              "unwind": 12, "defines": ["-DLL_K=%d" % k, "-DLL_NL=%d" % nl], "min_obligations": 30, "timeout": 900}
+        u["replay"] = {"driver": LL_REPLAY, "sources": [], "op": "ll_" + name}   # header-only code: no library sources needed
         if "ll_" + name in MUTANTS:
             u["mutants"] = MUTANTS["ll_" + name]
         units.append(u)
@@ -208,6 +214,7 @@ def build(only_sizes=None):
     spec.update(json.load(open(os.path.join(HERE, "meta.json"))))
     spec["defaults"] = {"src": "array_list.c", "mode": "proof", "replace": R, "timeout": 300, "min_obligations": 80, "solver": CADICAL}
     spec["units"] = units
+    spec["claim"] = True
     return spec
 
 if __name__ == "__main__":
